@@ -445,6 +445,7 @@ pub mod tree {
 
         fn tree(&self) -> Btree<BtreeWriteAccessor> {
             Btree::new(self.root, self.pager.clone(), self.min_keys, self.siblings)
+                .with_accessor(BtreeWriteAccessor::new())
         }
 
         fn tuple(&self, row: Vec<DataType>) -> Result<Tuple, String> {
